@@ -84,12 +84,12 @@ def param_type(p):
     return ("*" if p.get("ptr") else "") + p["type"]
 
 
-def signature(m):
+def signature(m, ctxpkg="context"):
     ps = []
     for p in m["params"]:
         ps.append("%s %s" % (p["name"], param_type(p)))
     if m.get("ctx"):
-        ps.insert(min(m.get("ctxpos", 0), len(ps)), "%s context.Context" % m["ctx"])
+        ps.insert(min(m.get("ctxpos", 0), len(ps)), "%s %s.Context" % (m["ctx"], ctxpkg))
     if m["result"]["shape"] == "none":
         rs = "(*http.Response, error)"
     else:
@@ -174,7 +174,7 @@ def render_iface_decl(iface):
         lines.append("")
         for ln in directive_lines(m):
             lines.append("\t" + ln)
-        lines.append("\t" + signature(m))
+        lines.append("\t" + signature(m, iface.get("ctxpkg") or "context"))
     lines.append("}")
     return "\n".join(lines)
 
@@ -184,8 +184,13 @@ def render_package(pkg, ifaces, modpath=None):
     where=sub in sub/sub.go (package sub)"""
     files = {}
     imports = {'"net/http"', '"github.com/lopolopen/shoot"'}
+    # the context package may be imported under another name (the generator must recognise the RESOLVED type):
+    # one spelling per file, taken from the first interface that names one
+    ctxpkg = next((i.get("ctxpkg") for i in ifaces if i.get("ctxpkg")), None)
+    for i in ifaces:
+        i["ctxpkg"] = ctxpkg
     if any(m.get("ctx") for i in ifaces for m in i["methods"]):
-        imports.add('"context"')
+        imports.add('%s "context"' % ctxpkg if ctxpkg else '"context"')
     if any(uses(i, "time.") for i in ifaces):
         imports.add('"time"')
     if any(uses(i, "sub.") for i in ifaces):
@@ -268,7 +273,7 @@ def dummy_arg(p):
 # C10 oracle: the status matrix
 # ------------------------------------------------------------------------------------------------
 
-def c10_oracle(pkg, iface, statuses, bodies, faults, redirect=None, retry=None):
+def c10_oracle(pkg, iface, statuses, bodies, faults, redirect=None, retry=None, logged=None):
     """redirect: None | (firsts, seconds, bodies);  retry: None | {n: [script specs]}"""
     n = iface["name"]
     lines = ["package " + pkg, "", 'import (', '\t"context"', '\t"net/http"', "", '\t"github.com/lopolopen/shoot"', '\t"github.com/lopolopen/shoot/middleware"', '\t"verifcases/vrest"', ")", "",
@@ -282,12 +287,13 @@ def c10_oracle(pkg, iface, statuses, bodies, faults, redirect=None, retry=None):
         call = "c.%s(%s)" % (m["name"], ", ".join(args))
         if m["result"]["shape"] == "none":
             fn = "func(ctx context.Context) (any, *http.Response, error) { resp, err := %s; return nil, resp, err }" % call
-            lines.append('\t\t{Name: "%s", Shape: "none", Valid: `{"any":"thing"}`, Wrong: `[1]`, Call: %s},' % (m["name"], fn))
+            lines.append('\t\t{Name: "%s", Shape: "none", HasCtx: %s, Valid: `{"any":"thing"}`, Wrong: `[1]`, Call: %s},' % (
+                m["name"], "true" if m.get("ctx") else "false", fn))
         else:
             shape, elem, valid, want, wrong = RESULT_TYPES[m["result"]["type"]]
             fn = "func(ctx context.Context) (any, *http.Response, error) { r, resp, err := %s; return r, resp, err }" % call
-            lines.append('\t\t{Name: "%s", Shape: "%s", Valid: `%s`, Wrong: `%s`, Want: %s, Call: %s},' % (
-                m["name"], shape, valid, wrong, want, fn))
+            lines.append('\t\t{Name: "%s", Shape: "%s", HasCtx: %s, Valid: `%s`, Wrong: `%s`, Want: %s, Call: %s},' % (
+                m["name"], shape, "true" if m.get("ctx") else "false", valid, wrong, want, fn))
     lines += ["\t}", "}", "",
               "func VerifObserve(emit func(string, string)) {",
               "\tsc := &vrest.Script{}",
@@ -299,6 +305,16 @@ def c10_oracle(pkg, iface, statuses, bodies, faults, redirect=None, retry=None):
         firsts, seconds, rbodies = redirect
         lines.append('\tvrest.RedirectLegs(emit, sc, hc, verifMethods(c), []int{%s}, []int{%s}, []string{%s})' % (
             ", ".join(str(x) for x in firsts), ", ".join(str(x) for x in seconds), ", ".join('"%s"' % b for b in rbodies)))
+    for tag, logging, k in (logged or []):
+        # transport faults through a chain with logging and k pass-through middlewares in front of the scripted base
+        opts = ['shoot.BaseURL("http://verif.invalid/api")'] + ["shoot.Use(vrest.TagMW(%d))" % (j + 1) for j in range(k)]
+        if logging:
+            opts.append("shoot.EnableLogging(true)")
+        lines += ["\t{", "\t\told := http.DefaultTransport", "\t\tsc3 := &vrest.Script{}", "\t\thttp.DefaultTransport = sc3",
+                  "\t\tc3 := shoot.NewRest[%s](%s)" % (n, ", ".join(opts)),
+                  "\t\thttp.DefaultTransport = old",
+                  '\t\tvrest.FaultLegs(emit, sc3, verifMethods(c3), "%s")' % tag,
+                  "\t}"]
     for rn, scripts in sorted((retry or {}).items()):
         # a client whose chain is logging -> RetryMiddleware(n, 0) -> scripted base (BuildMiddleware wraps http.DefaultTransport)
         lines += ["\t{", "\t\told := http.DefaultTransport", "\t\tsc2 := &vrest.Script{}", "\t\thttp.DefaultTransport = sc2",
@@ -369,7 +385,8 @@ class RestGen:
             methods.append({"name": mn, "verb": verb, "verbtext": verbtext(rng, verb), "path": path, "quoted": rng.random() < 0.8,
                             "alias": [], "ctx": "ctx" if ctx else None, "ctxpos": 0, "params": params,
                             "result": self.result()})
-        return {"name": name, "headers": None, "structs": [], "methods": methods, "force_results": True}
+        return {"name": name, "headers": None, "structs": [], "methods": methods, "force_results": True,
+                "ctxpkg": rng.choice([None, None, "stdctx", "ctx2"])}
 
 
 # ================================================================================================
@@ -540,7 +557,8 @@ class C06Gen:
         structs = [s for m in ms for s in m.pop("structs")]
         hs = rng.choice(HEADER_SETS)
         hb = [n for n in range(len(hs) - 1) if rng.random() < 0.4] if hs else []
-        return {"name": name, "headers": hs, "hbreaks": hb, "structs": structs, "methods": ms, "base": rng.choice(BASES)}
+        return {"name": name, "headers": hs, "hbreaks": hb, "structs": structs, "methods": ms, "base": rng.choice(BASES),
+                "ctxpkg": rng.choice([None, None, None, "stdctx", "gocontext"])}
 
     # ---- argument vectors -----------------------------------------------------------------------
     def args_for(self, m, k, nil_struct=0.0, brace=0.0, unsafe=0.5):
